@@ -131,29 +131,39 @@ func RunC18(d *Driver) *Report {
 	type tf struct {
 		name, content string
 		mode          os.FileMode
+		symlink       bool // the path given to evy fmt is a symbolic link to the file
 	}
 	files := []tf{
-		{"a.evy", "x:=1\nprint   x\n", 0o644},
-		{"b.evy", "func  f   n:num\n  print n  // c\nend\n\n\n\nf 1\n", 0o755},
-		{"c.evy", "print 1\n", 0o600},
-		{"d.evy", "a := [1\n 2\n   3]\nfor i:=range a\nprint i\nend\n", 0o664},
+		{"a.evy", "x:=1\nprint   x\n", 0o644, false},
+		{"b.evy", "func  f   n:num\n  print n  // c\nend\n\n\n\nf 1\n", 0o755, false},
+		{"c.evy", "print 1\n", 0o600, false},
+		{"d.evy", "a := [1\n 2\n   3]\nfor i:=range a\nprint i\nend\n", 0o664, false},
+		{"link.evy", "y:=2\nprint   y\n", 0o644, true},
 	}
 	if Thorough() {
 		big := "x := 0\n"
 		for i := 0; i < 3000; i++ {
 			big += fmt.Sprintf("x  =  x +  %d\n", i)
 		}
-		files = append(files, tf{"big.evy", big, 0o640}, tf{"e.evy", "if true\nprint 1\nelse\nprint 2\nend\n", 0o444})
+		files = append(files, tf{"big.evy", big, 0o640, false}, tf{"e.evy", "if true\nprint 1\nelse\nprint 2\nend\n", 0o444, false})
 	}
 	faults := []string{"error=ENOSPC", "error=EIO", "error=EACCES", "signal=KILL"}
-	r.Rule = fmt.Sprintf("the evy binary is rebuilt from the working tree; for %d source files of different modes and every file-system system call of `evy fmt -w` after the target has been read (found with a fault-free strace run), each of %v is injected with `strace -e inject=…:when=k`: afterwards the file must hold its original or the complete formatted text with unchanged permission bits, and exit status 0 must mean formatted. The fault-free system-call sequence is compared with the call list the Lean theorems are about. Also: unparsable files untouched with non-zero status; `fmt -c` exits 0 exactly for formatted input and writes nothing; -w on stdin rejected. Non-trivial = distinct (file, syscall, occurrence, fault)", len(files), faults)
+	r.Rule = fmt.Sprintf("the evy binary is rebuilt from the working tree; for %d source files of different modes (one reached through a symbolic link) and every file-system system call of `evy fmt -w` after the target has been read (found with a fault-free strace run), each of %v is injected with `strace -e inject=…:when=k`: afterwards the file must hold its original or the complete formatted text with unchanged permission bits, and exit status 0 must mean formatted. The fault-free system-call sequence is compared with the call list the Lean theorems are about. Also: unparsable files untouched with non-zero status; `fmt -c` exits 0 exactly for formatted input and writes nothing, also over several files in every order; -w on stdin rejected. Non-trivial = distinct (file, syscall, occurrence, fault)", len(files), faults)
 	model, _ := d.Ask("shape writeAtomically")
 	for _, f := range files {
 		path := filepath.Join(dir, f.name)
 		restore := func() {
 			os.Remove(path)
-			os.WriteFile(path, []byte(f.content), f.mode) //nolint
-			os.Chmod(path, f.mode)                         //nolint
+			if f.symlink {
+				real := filepath.Join(dir, f.name+".real")
+				os.Remove(real)
+				os.WriteFile(real, []byte(f.content), f.mode) //nolint
+				os.Chmod(real, f.mode)                        //nolint
+				os.Symlink(real, path)                        //nolint
+			} else {
+				os.WriteFile(path, []byte(f.content), f.mode) //nolint
+				os.Chmod(path, f.mode)                        //nolint
+			}
 			// remove stray temp files
 			ents, _ := os.ReadDir(dir)
 			for _, e := range ents {
@@ -329,6 +339,33 @@ func RunC18(d *Driver) *Report {
 	r.Count("w-stdin", true)
 	if pw.Exit == 0 {
 		r.Violation(Case{Stream: "flags", Input: "evy fmt -w < stdin", Real: "exit=0", Spec: "-w without files is rejected"})
+	}
+	// check mode over several files: one unformatted file anywhere makes -c fail, and nothing is written
+	{
+		u1, f1, f2 := filepath.Join(dir, "mu.evy"), filepath.Join(dir, "mf1.evy"), filepath.Join(dir, "mf2.evy")
+		contents := map[string]string{u1: "x:=1\nprint   x\n", f1: "print 1\n", f2: "print 2\n"}
+		for _, args := range [][]string{{u1, f1}, {f1, u1}, {f1, u1, f2}, {u1, f1, f2}, {f1, f2, u1}, {f1, f2}, {u1, u1}, {f1}} {
+			for p, c := range contents {
+				os.WriteFile(p, []byte(c), 0o644) //nolint
+			}
+			allFormatted := true
+			for _, a := range args {
+				allFormatted = allFormatted && a != u1
+			}
+			pc := runProc(20*time.Second, "", bin, append([]string{"fmt", "-c"}, args...)...)
+			names := ""
+			for _, a := range args {
+				names += filepath.Base(a) + " "
+			}
+			r.Count("check-multi:"+names, true)
+			unchanged := true
+			for p, c := range contents {
+				unchanged = unchanged && string(mustRead(p)) == c
+			}
+			if (pc.Exit == 0) != allFormatted || !unchanged {
+				r.Violation(Case{Stream: "check-multi", Input: "evy fmt -c " + names + "(mu.evy is not formatted)", Real: fmt.Sprintf("exit=%d files unchanged=%v", pc.Exit, unchanged), Spec: fmt.Sprintf("fmt -c exits zero exactly when every file is formatted (%v) and writes nothing", allFormatted)})
+			}
+		}
 	}
 	// txtar check mode: an unformatted member anywhere makes -c fail
 	ta := filepath.Join(dir, "t.txtar")
